@@ -172,7 +172,7 @@ theorem roundtrip_float_shape (feats : Features) (fmt : Format) (wo : WOpts) (po
       grammarFloatComplete feats fmt po (writerSign feats fmt neg ++ writeDecimal fmt feats ds sci wo) =
         .num l (writerSign feats fmt neg ++ writeDecimal fmt feats ds sci wo).length ∧
       l.neg = neg ∧
-      DigitsForm l.intDigits l.fracDigits l.exp (truncateAndRound ds wo).1
+      DigitsForm l.intDigits l.fracDigits l.exp (keptOf fmt feats ds sci wo)
         (sci + (if (truncateAndRound ds wo).2 then 1 else 0)) :=
   writeDecimal_accepted feats fmt wo po ds sci neg hv h10 ha.dp ha.exp ha.punctuation ha.nonZero.1 hin hclear
 
@@ -189,7 +189,22 @@ theorem roundtrip_float_exact_value (feats : Features) (fmt : Format) (wo : WOpt
         (ofDigits 10 (truncateAndRound ds wo).1 : ℚ) *
           (10 : ℚ) ^ (sci + (if (truncateAndRound ds wo).2 then 1 else 0) + 1 - ((truncateAndRound ds wo).1.length : Int)) := by
   obtain ⟨l, h1, h2, h3⟩ := roundtrip_float_shape feats fmt wo po ds sci neg hv h10 ha hin hclear
-  exact ⟨l, h1, h2, digitsForm_value _ _ _ _ _ h3⟩
+  refine ⟨l, h1, h2, ?_⟩
+  rw [digitsForm_value _ _ _ _ _ h3]
+  -- the kept digits are the rounded digits up to trailing zeros: same number
+  obtain ⟨m, hm⟩ := kept_spec fmt feats ds sci wo
+  rw [hm]
+  have hv' : ofDigits 10 (keptOf fmt feats ds sci wo ++ List.replicate m 0) = ofDigits 10 (keptOf fmt feats ds sci wo) * 10 ^ m := by
+    have := ofDigits_form 0 m (keptOf fmt feats ds sci wo)
+    simpa using this
+  rw [hv', List.length_append, List.length_replicate]
+  have h10' : (10 : ℚ) ≠ 0 := by norm_num
+  have hE : sci + (if (truncateAndRound ds wo).2 then 1 else 0) + 1 - ((keptOf fmt feats ds sci wo).length : Int)
+      = (m : Int) + (sci + (if (truncateAndRound ds wo).2 then 1 else 0) + 1 -
+          (((keptOf fmt feats ds sci wo).length + m : Nat) : Int)) := by push_cast; omega
+  rw [hE, zpow_add₀ h10', zpow_natCast]
+  push_cast
+  ring
 
 /-- the writer's bytes never contain the format's digit-separator byte: they are in the scope of `Spec.Grammar`
 (and of C12, which relates the grammar to the parser model on separator-free inputs) -/
@@ -399,11 +414,18 @@ theorem roundtrip_signed_zero (f : Fmt) (feats : Features) (fmt : Format) (wo : 
   refine ⟨l, h1, ?_⟩
   rw [LexVerif.Props.RoundNE.litBits_zero f _ _ l, h2]
   intro d hd
-  rw [h3, truncateAndRound_zero wo ha.nonZero.1] at hd
-  simp only [List.mem_append, List.mem_replicate, List.mem_singleton] at hd
+  obtain ⟨m, hm⟩ := kept_spec fmt feats [0] 0 wo
+  rw [truncateAndRound_zero wo ha.nonZero.1] at hm
+  have hm' : [0] = keptOf fmt feats [0] 0 wo ++ List.replicate m 0 := hm
+  have hK : ∀ x ∈ keptOf fmt feats [0] 0 wo, x = 0 := by
+    intro x hx
+    have : x ∈ [0] := by rw [hm']; exact List.mem_append_left _ hx
+    simpa using this
+  rw [h3] at hd
+  simp only [List.mem_append, List.mem_replicate] at hd
   rcases hd with (hd | hd) | hd
   · exact hd.2
-  · exact hd
+  · exact hK d hd
   · exact hd.2
 
 /-- non-vacuity: `-0.0` under STANDARD -/
@@ -428,7 +450,7 @@ theorem roundtrip_float_model (feats : Features) (f : Fmt) (fmt : Format) (wo : 
     ∃ l : FloatLit,
       grammarFloatComplete feats fmt po (w.bytes.take w.len) = .num l (w.bytes.take w.len).length ∧
       l.neg = f.isNeg bits ∧
-      DigitsForm l.intDigits l.fracDigits l.exp (truncateAndRound ds wo).1
+      DigitsForm l.intDigits l.fracDigits l.exp (keptOf fmt feats ds sci wo)
         (sci + (if (truncateAndRound ds wo).2 then 1 else 0)) := by
   have hds : 1 ≤ ds.length := by
     cases ds with
@@ -527,10 +549,30 @@ theorem roundtrip_decimal_value (f : Fmt) (hf : WF f) (hrange : FmtRange f) (fea
     refine ⟨hW.canonical, ?_⟩
     intro h; subst h; exact absurd rfl hD
   obtain ⟨l, h1, h2, h3⟩ := roundtrip_float_shape feats fmt wo po ds sci neg hv h10 ha hin hclear
-  rw [truncateAndRound_none ds wo hmax] at h3
+  obtain ⟨m, hm⟩ := kept_spec fmt feats ds sci wo
+  rw [truncateAndRound_none ds wo hmax] at h3 hm
   simp only [Bool.false_eq_true, if_false, Int.add_zero] at h3
+  -- the digits laid out are `ds` up to trailing zeros dropped by `trim_floats`: same decimal
+  have hm' : ds = keptOf fmt feats ds sci wo ++ List.replicate m 0 := hm
+  generalize keptOf fmt feats ds sci wo = K at h3 hm'
+  have hKlt : ∀ d ∈ K, d < 10 := fun d hd => hW.canonical.lt d (by rw [hm']; exact List.mem_append_left _ hd)
+  have hrtK : roundNE f (decFrac (ofDigits 10 K) (sci + 1 - (K.length : Int))).1
+      (decFrac (ofDigits 10 K) (sci + 1 - (K.length : Int))).2 = mbits := by
+    rw [← hrt]
+    apply LexVerif.Props.RoundNE.roundNE_congr hf (decFrac_den_pos _ _) (decFrac_den_pos _ _)
+    rw [decFrac_Q, decFrac_Q, hm']
+    have hv' : ofDigits 10 (K ++ List.replicate m 0) = ofDigits 10 K * 10 ^ m := by
+      have := ofDigits_form 0 m K
+      simpa using this
+    rw [hv', List.length_append, List.length_replicate]
+    have h10' : (10 : ℚ) ≠ 0 := by norm_num
+    have hE : sci + 1 - (K.length : Int) = (m : Int) + (sci + 1 - ((K.length + m : Nat) : Int)) := by
+      push_cast; omega
+    rw [hE, zpow_add₀ h10', zpow_natCast]
+    push_cast
+    ring
   refine ⟨l, h1, ?_⟩
-  rw [h10, hbase, litBits_of_form hf hrange l ds sci h3 hW.canonical.lt mbits h0 hfin hrt, h2]
+  rw [h10, hbase, litBits_of_form hf hrange l K sci h3 hKlt mbits h0 hfin hrtK, h2]
 
 /-- non-vacuity of `WriterDigitsShortest` / `roundtrip_decimal_value`: `0.3` (f64 `0x3fd3333333333333`) has the
 shortest digits `[3]` at exponent `-1`; written under the all-required format it is `+3.0e-1` and reads back. -/
